@@ -75,6 +75,9 @@ func Exec(t *testing.T, sc *Scenario, oracle Oracle, path []string, everyStep bo
 	return res
 }
 
+// gcEvery: executions between forced collections (see run.go).
+const gcEvery = 32
+
 type stateRec struct {
 	Hash    uint64
 	Path    string // transitions joined by ' '
@@ -137,12 +140,17 @@ func Explore(t *testing.T, sc *Scenario, oracle Oracle, sh vr.ShardInfo, dir str
 	writeStatus(false)
 	_ = os.WriteFile(filepath.Join(dir, fmt.Sprintf("pid-%d", me)), []byte(strconv.Itoa(os.Getpid())), 0o644)
 	idlePolls := 0
+	var idleNs, idleSleeps int64
+	tStart := time.Now()
 
 	exec := func(path []string) ExecResult {
 		var res ExecResult
 		for attempt := 0; attempt < 3; attempt++ {
 			res = Exec(t, sc, oracle, path, false)
 			p.Add("executions", 1)
+			if p.Counters["executions"]%gcEvery == 0 {
+				runtime.GC()
+			}
 			p.Add("replayed_steps", int64(len(path)))
 			if res.Err == "" {
 				return res
@@ -283,7 +291,10 @@ func Explore(t *testing.T, sc *Scenario, oracle Oracle, sh vr.ShardInfo, dir str
 			} else {
 				prevSnap = ""
 			}
+			t0 := time.Now()
 			time.Sleep(backoff)
+			idleNs += time.Since(t0).Nanoseconds()
+			idleSleeps++
 			if backoff < 16*time.Millisecond {
 				backoff *= 2
 			}
@@ -355,6 +366,9 @@ func Explore(t *testing.T, sc *Scenario, oracle Oracle, sh vr.ShardInfo, dir str
 		}
 	}
 	p.Add(pre+"n_states", int64(len(seen)))
+	if os.Getenv("VERIF_CMC_DEBUG") != "" {
+		fmt.Fprintf(os.Stderr, "worker %d scenario %s: wall %.1fs idle %.1fs in %d sleeps, execs %d, states owned %d sent %d recv %d\n", me, sc.Name, time.Since(tStart).Seconds(), float64(idleNs)/1e9, idleSleeps, p.Counters["executions"], len(seen), sent, recv)
+	}
 	m := p.Sets["states"]
 	if m == nil {
 		m = map[uint64]struct{}{}
